@@ -1,6 +1,6 @@
 CONSTANTS
   Kinds = {"run", "stage", "subs", "suspend", "lazy_stage", "monitor_during", "fly_during"}
-  MaxOps = 6
+  MaxOps = 7
   PMsgs = 3
   Thrown = {"Err", "Stop", "Abort"}
   PRaise = {"ErrI"}
